@@ -371,7 +371,35 @@ impl Prop for C11b {
         let mut out = vec![];
         for i in 0..tier.pick(500, 5000) {
             let mut c = sample(&cs, r);
-            if i % 5 == 0 {
+            if i % 3 == 1 {
+                // a removed range that starts inside one piece of the left side and ends inside a
+                // later one, or equals a piece, or covers several pieces entirely; chained
+                let t = sample(&tapes, r);
+                let mut tp = gen::Tape::new(&t);
+                let mut pieces: Vec<(u32, u32)> = vec![];
+                let mut x = 0x30 + tp.next(0x30);
+                for _ in 0..(2 + tp.next(4)) {
+                    let len = tp.next(6);
+                    pieces.push((x, x + len));
+                    x += len + 2 + tp.next(5);
+                }
+                let ch = |v: u32| char::from_u32(v).unwrap_or('a');
+                let left = Re::Set(pieces.iter().map(|&(a, b)| if a == b { SetItem::C(ch(a)) } else { SetItem::R(ch(a), ch(b)) }).collect());
+                let pi = tp.next(pieces.len() as u32 - 1) as usize;
+                let pj = pi + 1 + tp.next((pieces.len() - pi - 1) as u32) as usize;
+                let (s, e) = match tp.next(4) {
+                    0 => (pieces[pi].0 + tp.next(pieces[pi].1 - pieces[pi].0 + 1), pieces[pj].0 + tp.next(pieces[pj].1 - pieces[pj].0 + 1)),
+                    1 => (pieces[pi].0, pieces[pj].1),
+                    2 => (pieces[pi].0.saturating_sub(1), pieces[pj].1 + 1),
+                    _ => (pieces[pi].1, pieces[pj].0),
+                };
+                let removed = Re::Set(vec![SetItem::R(ch(s), ch(e.max(s)))]);
+                let mut d = gen::mk_diff(left, removed);
+                if tp.next(2) == 1 {
+                    d = gen::mk_diff(d, Re::Set(vec![SetItem::R(ch(pieces[0].0), ch(pieces[0].1))]));
+                }
+                c = if tp.next(3) == 0 { alt(d, c) } else { d };
+            } else if i % 5 == 0 {
                 // many pieces: beyond the guard-chain threshold, minus / plus something
                 let big = gen::many_piece_set(&sample(&tapes, r), 10 + i % 9);
                 c = if i % 10 == 0 { gen::mk_diff(big, c) } else { alt(big, c) };
@@ -447,7 +475,7 @@ impl Prop for C11b {
         "part (b): random class expressions over bracket sets, overlapping ranges, `_`, the 13 built-ins that are exact on this toolchain, `|` and chained `#` (also through a `let` variable, also with 10-18 scattered pieces so that the binary-search table is used), compiled in four shapes — `C = 0, _ = 1` (one accepting arm per range), `C = 0` alone, `C+ = 0, _ = 1` (guard chain or search table) and `'!' > C` (inside a right-context function). One input per definition containing every code point within +-2 of every end point of the class, the scalar-range corners and 1,500+ random scalars; the complete item stream is compared with the reference, whose classes come from the oracle's own interval algebra. A class expression that panics the macro or does not compile is a violation. Non-trivial = the expression contains a `#` whose right side overlaps at least two pieces of its left side.".into()
     }
     fn min_nontrivial(&self, _tier: Tier) -> usize {
-        20
+        40
     }
 }
 
@@ -549,6 +577,28 @@ fn window_of(name: &str, k: usize) -> Option<Re> {
     Some(diff(Re::Builtin(name.into()), Re::Set(outside)))
 }
 
+fn c13_names_of(spec: &Spec) -> Vec<String> {
+    fn find(re: &Re, out: &mut Vec<String>) {
+        match re {
+            Re::Builtin(n) => out.push(n.clone()),
+            Re::Star(a) | Re::Plus(a) | Re::Opt(a) => find(a, out),
+            Re::Cat(a, b) | Re::Alt(a, b) | Re::Diff(a, b) => {
+                find(a, out);
+                find(b, out)
+            }
+            _ => {}
+        }
+    }
+    let mut out = vec![];
+    for r in spec.rules() {
+        find(&r.re, &mut out);
+        if let Some(c) = &r.ctx {
+            find(c, &mut out);
+        }
+    }
+    out
+}
+
 fn c13_name_of(spec: &Spec) -> Option<String> {
     fn find(re: &Re) -> Option<String> {
         match re {
@@ -591,12 +641,38 @@ impl Prop for C13 {
                 }
             }
         }
+        // combined with other classes: two built-ins as competing rules (their range transitions
+        // are merged and split against each other)
+        let mut pairs = vec![];
+        for (i, a) in BUILTIN_NAMES.iter().enumerate() {
+            for (j, b) in BUILTIN_NAMES.iter().enumerate() {
+                if i != j {
+                    pairs.push((*a, *b));
+                }
+            }
+        }
+        let n_pairs = tier.pick(30, pairs.len());
+        let start = (seed() as usize * 7) % pairs.len();
+        for k in 0..n_pairs {
+            let (a, b) = pairs[(start + k * 13) % pairs.len()];
+            out.push((
+                "builtin-pair",
+                simple_spec(
+                    vec![(plus(Re::Builtin(a.into())), None), (plus(Re::Builtin(b.into())), None), (Re::Any, None)],
+                    false,
+                    vec![],
+                ),
+            ));
+        }
         out
     }
     fn cases(&self, ctx: &SpecCtx, _c: &mut Compiled, _r: &mut TestRunner, _tier: Tier) -> Vec<Case> {
         let shape = shape_of(&ctx.spec);
         let name = c13_name_of(&ctx.spec).unwrap_or_default();
-        let drift = known_drift(&name);
+        let mut drift = known_drift(&name);
+        for n in c13_names_of(&ctx.spec) {
+            drift = drift.union(&known_drift(&n));
+        }
         // AcceptArms / Alone expose one item per character, so the recorded drift can be treated
         // as a per-character don't-care; the other shapes get an input without those characters.
         let chars = match shape {
